@@ -19,6 +19,7 @@ type Clause struct {
 	FnSym    string // generated clause function name
 	Props    []string
 	ParamPos map[string]string
+	SitePos  string // file:offset of the call's '(' for assertcall clauses
 }
 
 type FuncContract struct {
